@@ -19,6 +19,7 @@ import (
 
 	"github.com/Trendyol/go-dcp/config"
 	"github.com/Trendyol/go-dcp/couchbase"
+	"github.com/couchbase/gocbcore/v10"
 	"pgregory.net/rapid"
 )
 
@@ -85,7 +86,15 @@ func c19Child(raw json.RawMessage) any {
 			}
 			// the ways a ping fails: an ordinary error, or - the usual case against a hung cluster - the ping's own
 			// deadline (client.Ping returns its context's error then)
-			switch (i + sc.ErrKind) % 4 {
+			switch (i + sc.ErrKind) % 8 {
+			case 4: // errors that "cannot be cured by retrying": the rule does not distinguish them
+				return fmt.Errorf("injected ping failure #%d: %w", i, gocbcore.ErrAuthenticationFailure)
+			case 5:
+				return fmt.Errorf("injected ping failure #%d: %w", i, gocbcore.ErrBucketNotFound)
+			case 6:
+				return fmt.Errorf("injected ping failure #%d: %w", i, gocbcore.ErrShutdown)
+			case 7:
+				return fmt.Errorf("injected ping failure #%d: %w", i, gocbcore.ErrTimeout)
 			case 3: // answered in time, but a service is unhealthy: client.Ping returns a partial result AND the error
 				return partialPingError{fmt.Errorf("injected ping failure #%d: management endpoint unhealthy", i)}
 			case 1:
@@ -350,7 +359,7 @@ func TestC19_RoundsExhaustive(t *testing.T) {
 		if i%nsh != sh {
 			continue
 		}
-		scs = append(scs, c19Scenario{Rounds: []string{c19Issued(p)}, Stop: "after_rounds", StopTwice: i%2 == 0, StartTwice: i%3 == 0, ErrKind: i % 4})
+		scs = append(scs, c19Scenario{Rounds: []string{c19Issued(p)}, Stop: "after_rounds", StopTwice: i%2 == 0, StartTwice: i%3 == 0, ErrKind: i % 8})
 		// the long rounds again with slow pings (a failing ping usually fails by timing out): the round then lasts longer
 		// than five retry waits, and must still end only by its first success or its fifth failure
 		if strings.HasPrefix(p, "FFF") {
@@ -386,7 +395,7 @@ func TestC19_Sequences(t *testing.T) {
 			return // one generated batch per shard; the batch runs concurrently below
 		}
 		for i := 0; i < (n+nsh-1)/nsh; i++ {
-			sc := c19Scenario{StartTwice: rapid.Bool().Draw(rt, "start2"), StopTwice: rapid.Bool().Draw(rt, "stop2"), ErrKind: rapid.IntRange(0, 3).Draw(rt, "errkind")}
+			sc := c19Scenario{StartTwice: rapid.Bool().Draw(rt, "start2"), StopTwice: rapid.Bool().Draw(rt, "stop2"), ErrKind: rapid.IntRange(0, 7).Draw(rt, "errkind")}
 			sc.Stop = rapid.SampledFrom([]string{"none", "before_first_tick", "in_retry", "in_retry", "after_rounds", "after_rounds", "after_rounds_fast", "after_rounds_fast"}).Draw(rt, "stop")
 			switch sc.Stop {
 			case "before_first_tick":
@@ -421,10 +430,10 @@ func TestC19_Sequences(t *testing.T) {
 		for i, k := 0, scale(2, 6); i < k; i++ {
 			r := strings.Repeat("F", rapid.IntRange(1, 2).Draw(rt, "lfails")) + "S"
 			if i%2 == 0 {
-				scs = append(scs, c19Scenario{Rounds: []string{r}, Stop: "after_rounds", IntervalMs: rapid.SampledFrom([]int{4000, 5000}).Draw(rt, "linterval"), ErrKind: rapid.IntRange(0, 3).Draw(rt, "lerrkind")})
+				scs = append(scs, c19Scenario{Rounds: []string{r}, Stop: "after_rounds", IntervalMs: rapid.SampledFrom([]int{4000, 5000}).Draw(rt, "linterval"), ErrKind: rapid.IntRange(0, 7).Draw(rt, "lerrkind")})
 			} else {
 				iv := rapid.SampledFrom([]int{2500, 3000}).Draw(rt, "linterval2")
-				scs = append(scs, c19Scenario{Rounds: []string{r}, Stop: "none", IntervalMs: iv, TailMs: 2*iv - (iv + 1000*(len(r)-1)) + 600, ErrKind: rapid.IntRange(0, 3).Draw(rt, "lerrkind")})
+				scs = append(scs, c19Scenario{Rounds: []string{r}, Stop: "none", IntervalMs: iv, TailMs: 2*iv - (iv + 1000*(len(r)-1)) + 600, ErrKind: rapid.IntRange(0, 7).Draw(rt, "lerrkind")})
 			}
 		}
 	})
